@@ -6,6 +6,7 @@ import (
 	"go/constant"
 	"go/token"
 	"go/types"
+	"strings"
 
 	"golang.org/x/tools/go/packages"
 
@@ -381,4 +382,66 @@ func checkMgamma(c *core.Ctx) {
 		c.Check(logOfTerm(tl, tm), "C13.R4", "special.Mlgamma", detail+": logarithm of Mgamma", fl.Pos(),
 			"Mlgamma returns "+clip(tl.String(), 200)+", which is not the logarithm of Mgamma = "+clip(tm.String(), 200))
 	}
+}
+
+// checkRangeGuards (C13.R10): an out-of-range test has the form `lo(X) <= L || hi(X) >= H` with lo(X) <= hi(X) (the same
+// expression, or Min(...) and Max(...) of the same operands) and L < H. Joined by && the test fires only when both limits are violated at
+// once: it (almost) never fires, and the direct evaluation it was meant to protect
+// under- or overflows (results collapse to 0 in the tails).
+func checkRangeGuards(c *core.Ctx) {
+	c.Rule("C13.R10", "special functions: the two halves of an out-of-range test (below the lower limit, above the upper limit) are joined by ||", 2)
+	p := c.Pkg("special")
+	if p == nil {
+		return
+	}
+	info := p.TypesInfo
+	type half struct {
+		q     string // the quantity, with Min/Max stripped
+		lower bool
+	}
+	classify := func(e ast.Expr) (half, bool) {
+		be, ok := ast.Unparen(e).(*ast.BinaryExpr)
+		if !ok {
+			return half{}, false
+		}
+		var lhs ast.Expr
+		lower := false
+		switch be.Op {
+		case token.LSS, token.LEQ:
+			lhs, lower = be.X, true
+		case token.GTR, token.GEQ:
+			lhs, lower = be.X, false
+		default:
+			return half{}, false
+		}
+		limit := types.ExprString(be.Y)
+		if !(strings.Contains(limit, "Min") || strings.Contains(limit, "Max") || strings.Contains(limit, "Epsilon")) {
+			if tv, ok := info.Types[be.Y]; !ok || tv.Value == nil {
+				return half{}, false
+			}
+		}
+		q := types.ExprString(lhs)
+		if ce, ok := ast.Unparen(lhs).(*ast.CallExpr); ok && len(ce.Args) == 2 {
+			if fn := core.Callee(info, ce); fn != nil && fn.Pkg() != nil && fn.Pkg().Path() == "math" && (fn.Name() == "Min" || fn.Name() == "Max") {
+				q = types.ExprString(ce.Args[0]) + "," + types.ExprString(ce.Args[1])
+			}
+		}
+		return half{q, lower}, true
+	}
+	core.EachFunc(p, func(_ *ast.File, fd *ast.FuncDecl) {
+		ast.Inspect(fd.Body, func(n ast.Node) bool {
+			be, ok := n.(*ast.BinaryExpr)
+			if !ok || (be.Op != token.LOR && be.Op != token.LAND) {
+				return true
+			}
+			a, ok1 := classify(be.X)
+			b, ok2 := classify(be.Y)
+			if !ok1 || !ok2 || a.q != b.q || a.lower == b.lower || !a.lower {
+				return true
+			}
+			c.Check(be.Op == token.LOR, "C13.R10", c.FuncName(p, fd), "out-of-range test on "+a.q, be.Pos(),
+				"the test "+types.ExprString(be)+" fires only when the lower and the upper limit are violated at once: a quantity that is merely too small (or too large) passes, so the evaluation the test guards runs into under- or overflow")
+			return true
+		})
+	})
 }
